@@ -246,6 +246,7 @@ type World struct {
 	srv     *httptest.Server
 	handler atomic.Value
 	Router  proxy.Router
+	active  int64 // request handlers that have not returned yet
 }
 
 func (w *World) Now() time.Time   { return time.Unix(atomic.LoadInt64(&w.now), 0) }
@@ -284,6 +285,8 @@ func NewWorldAt(dir string, now int64) (*World, error) {
 	}
 	w.handler.Store(handlerBox{http.NotFoundHandler()})
 	w.srv = httptest.NewUnstartedServer(http.HandlerFunc(func(rw http.ResponseWriter, r *http.Request) {
+		atomic.AddInt64(&w.active, 1)
+		defer atomic.AddInt64(&w.active, -1)
 		if c := w.Ctl; c != nil {
 			if name := r.Header.Get("X-Verif-Actor"); name != "" {
 				c.Register(name)
@@ -323,12 +326,22 @@ type ClientView struct {
 // Do sends raw request bytes over a fresh TCP connection (Connection: close is the caller's
 // business) and reads the whole response.
 func (w *World) Do(raw []byte, isHead bool) ClientView {
-	conn, err := net.DialTimeout("tcp", w.srv.Listener.Addr().String(), 2*time.Second)
+	// the listener is in this very process: a connect that fails says something about the load on
+	// the machine, nothing about rrrouter - it is tried again rather than reported as "no response"
+	var conn net.Conn
+	var err error
+	for try := 0; try < 6; try++ {
+		conn, err = net.DialTimeout("tcp", w.srv.Listener.Addr().String(), 5*time.Second)
+		if err == nil {
+			break
+		}
+		time.Sleep(50 * time.Millisecond)
+	}
 	if err != nil {
 		return ClientView{Framing: "noresponse"}
 	}
 	defer conn.Close()
-	conn.SetDeadline(time.Now().Add(10 * time.Second))
+	conn.SetDeadline(time.Now().Add(20 * time.Second))
 	if _, err := conn.Write(raw); err != nil {
 		return ClientView{Framing: "noresponse"}
 	}
@@ -466,8 +479,34 @@ func (c ClientView) String() string {
 	return fmt.Sprintf("%d %s %d bytes %v", c.Status, c.Framing, len(c.Body), c.Header)
 }
 
-// Quiesce gives the cache's notifier goroutine time to drain pending releases: a probe request
-// for a reserved path is pushed through the cache until it no longer has to wait. Bounded.
+// Quiesce returns when the exchange that just ended has no after-effects left: every request
+// handler has returned, and the cache's notifier goroutine has worked off every release sent to
+// it. The notifier is one goroutine reading an unbuffered channel, so when the SECOND of two probe
+// releases (for a reserved key nobody waits on) has been taken, the first one and everything
+// before it have been processed completely. Sequential histories are then really sequential,
+// whatever the load on the machine.
 func (w *World) Quiesce() {
-	time.Sleep(3 * time.Millisecond)
+	deadline := time.Now().Add(5 * time.Second)
+	for atomic.LoadInt64(&w.active) != 0 && time.Now().Before(deadline) {
+		time.Sleep(100 * time.Microsecond)
+	}
+	if w.Cache == nil {
+		return
+	}
+	done := make(chan struct{})
+	go func() {
+		defer close(done)
+		defer func() { recover() }()
+		w.Cache.Finish(quiesceKey, Logger)
+		w.Cache.Finish(quiesceKey, Logger)
+	}()
+	select {
+	case <-done:
+	case <-time.After(5 * time.Second):
+	}
 }
+
+var quiesceKey = func() caching.Key {
+	req, _ := http.NewRequest("GET", "http://quiesce.invalid/rrverif-quiesce-probe", nil)
+	return caching.KeysFromRequest(req)[0]
+}()
